@@ -367,7 +367,8 @@ def run(cfg: dict, workdir: str | None = None, post_build=None):
     CTX["phase"] = None
     recs = read_logs(logdir)
     res = {"out": out, "recs": recs, "exc": exc, "system": system, "integrator": integ, "trace_funcs": trace_funcs,
-           "call_log": read_call_log(logdir), "sampler_transitions": sampler.transitions, "kw": kw, "workdir": workdir, "own_workdir": own, "logdir": logdir}
+           "call_log": read_call_log(logdir), "sampler_transitions": sampler.transitions,
+           "init_pos": {c: np.array(st.pos if hasattr(st, "pos") else (st["pos"] if isinstance(st, dict) else st)) for c, st in enumerate(inits)}, "kw": kw, "workdir": workdir, "own_workdir": own, "logdir": logdir}
     return res
 
 
